@@ -145,6 +145,14 @@ def run(prog):
         t = strip(t)
         if mir.is_call(t, "get_or_insert") or mir.is_call(t, "neg"):
             continue
+        # a memo hit (the payload of a map lookup keyed by something that contains the visited pointer) is a value this
+        # function computed before, not the argument handed back: whether the memo may be trusted — fresh per call, or
+        # keyed by everything the result depends on — is what GL6 / GL9 decide
+        from . import canon as _canon
+        if _canon.is_payload(t) and any(mir.is_call(x) and x[1].name in ("get", "get_mut", "remove", "entry")
+                                        and ("HashMap" in x[1].key() or "BTreeMap" in x[1].key() or "Lru" in x[1].key())
+                                        for x in mir.subterms(t)):
+            continue
         n_asis += 1
         done = False
         facts = [(c, val) for c, val, _, d in te.facts_at(pb if isinstance(pb, int) and pb >= 0 else 0)] + conds
@@ -162,12 +170,75 @@ def run(prog):
     # entry: smooth(bdd, n) = smooth_helper(bdd, 0, n)
     sm = prog.find1(name="smooth", self_adt="builder::bdd::robdd::RobddBuilder", unit="rsdd-lib")
     r = strip(sm.terms.ret)
-    ok = mir.is_call(r, "smooth_helper") and r[2][1] == ("param", 2) and r[2][2][0] == "const" and r[2][2][2] == "0" \
-        and r[2][3] == ("param", 3)
+    cands = resolve_smooth(prog, r)
+
+    def is_entry(x):
+        return mir.is_call(x, "smooth_helper") and x[2][1] == ("param", 2) and x[2][2][0] == "const" and x[2][2][2] == "0" \
+            and x[2][3] == ("param", 3)
+    ok = bool(cands) and all(is_entry(x) for x in cands)
     out.append(inst("SL", "%s:entry" % sm.npath, OK if ok else VIOLATION, sm, None,
                     "smooth(b, n) = smooth_helper(b, 0, n)" if ok else "smooth does not start at level 0 with the given count: %s" % show(r)))
     out += sl2(prog)
     return out
+
+
+def resolve_smooth(prog, t, stop=(), depth=3):
+    """the diagram-valued terms a term stands for once checked-call plumbing is removed: `x.expect(..)`, `x.unwrap()`,
+    `x.unwrap_or_else(|| panic!(..))` are x's payload; a call of a private/checked variant (`try_smooth`) is replaced by
+    the payloads it returns, with the arguments in place"""
+    from . import canon
+    t = strip(t)
+    if depth < 0 or not isinstance(t, tuple) or not t:
+        return [t]
+    if mir.is_call(t) and t[1].name in ("unwrap", "expect", "unwrap_unchecked", "unwrap_or_else") and t[2] and \
+            ("ption" in (t[1].def_ or "") or "esult" in (t[1].def_ or "")):
+        if t[1].name == "unwrap_or_else" and len(t[2]) == 2:
+            g, _ = canon.closure_fn(prog, t[2][1])
+            if g is None or g.cfg.returns:      # the fall-back closure returns a value: not a refusal
+                return [t]
+        return [y for x in resolve_smooth_opt(prog, t[2][0], stop, depth) for y in [x]]
+    if mir.is_call(t) and t[1].local and t[1].name not in ("smooth_helper",) + tuple(stop):
+        gs = [g for g in prog.resolve(t[1]) if "{closure" not in g.npath]
+        if len(gs) == 1 and gs[0].terms.ret is not None:
+            body = canon.subst(gs[0].terms.ret, params={i + 1: a for i, a in enumerate(t[2])})
+            out = []
+            for leaf in _leaves(body):
+                out += resolve_smooth(prog, leaf, stop, depth - 1)
+            return out
+    return [t]
+
+
+def resolve_smooth_opt(prog, t, stop, depth):
+    """payloads of an Option-valued term (None alternatives dropped)"""
+    from . import canon
+    t = strip(t)
+    if mir.is_call(t) and t[1].local:
+        gs = [g for g in prog.resolve(t[1]) if "{closure" not in g.npath]
+        if len(gs) == 1 and gs[0].terms.ret is not None:
+            outs = canon.option_outcomes(prog, gs[0].terms, gs[0].terms.ret)
+            if outs is not None:
+                res = []
+                for o in outs:
+                    o = canon.subst(o, params={i + 1: a for i, a in enumerate(t[2])})
+                    res += resolve_smooth(prog, o, stop, depth - 1)
+                return res
+    outs = canon.option_outcomes(prog, None, t)
+    if outs:
+        res = []
+        for o in outs:
+            res += resolve_smooth(prog, o, stop, depth - 1)
+        return res
+    return [t]
+
+
+def _leaves(t):
+    t = strip(t)
+    if isinstance(t, tuple) and t and t[0] in ("gamma", "phi"):
+        o = []
+        for _, v in t[2]:
+            o += _leaves(v)
+        return o
+    return [t]
 
 
 def sl2(prog):
@@ -186,7 +257,10 @@ def sl2(prog):
         for i, cs in enumerate(counts):
             recv = strip(cs.args[0])
             errs = []
-            if not mir.is_call(recv, "smooth"):
+            rc = resolve_smooth(prog, recv, stop=("smooth",))
+            if rc and all(mir.is_call(x, "smooth") or (mir.is_call(x, "smooth_helper") and strip(x[2][2])[0] == "const" and strip(x[2][2])[2] == "0") for x in rc):
+                recv = rc[0] if mir.is_call(rc[0], "smooth") else ("call", rc[0][1], (rc[0][2][0], rc[0][2][1], rc[0][2][3]))
+            if not mir.is_call(recv, "smooth") and not mir.is_call(recv, "smooth_helper"):
                 errs.append("count is taken on %s, not on a smoothed diagram" % show(recv)[:120])
             else:
                 n = strip(recv[2][2])
